@@ -144,6 +144,10 @@ type Node struct {
 	// SlowAppend/SlowApply: the node's storage threads are stalled (slow
 	// disk / slow state machine); Service leaves their queues alone.
 	SlowAppend, SlowApply bool
+	// SlowAck: the append thread works, but its acknowledgements to the raft
+	// state machine (MsgStorageAppendResp) are delivered late: they race with
+	// overwrites of the entries they name.
+	SlowAck bool
 
 	// LostCommitInc is the incarnation whose crash lost an un-synced commit.
 	LostCommitInc int
@@ -412,7 +416,7 @@ func (s *Sim) touch(n *Node, c *Cause, f func()) bool {
 
 func (s *Sim) crashInternal(n *Node) {
 	n.Up = false
-	n.SlowAppend, n.SlowApply = false, false
+	n.SlowAppend, n.SlowApply, n.SlowAck = false, false, false
 	n.RN = nil
 	n.Phase, n.Sent, n.Applied = PhaseIdle, false, false
 	n.Rd = raft.Ready{}
